@@ -100,38 +100,47 @@ def check(prog, rep):
     if not isinstance(backbone, list):
         raise AnalysisError("config.BACKBONE does not fold to a list")
     rank = rank_function(prog, backbone)
-    gm = prog.func("residue.py", "Residue.get_moveable_names").node
-    cmps = [n for n in ast.walk(gm) if isinstance(n, ast.Compare) and "refdistance" in U(n.left) and len(n.ops) == 1]
-    if len(cmps) != 1:
-        raise AnalysisError("get_moveable_names: rank comparison not found")
-    op = type(cmps[0].ops[0])
-    opf = {ast.Gt: lambda a, b: a > b, ast.GtE: lambda a, b: a >= b, ast.Lt: lambda a, b: a < b, ast.LtE: lambda a, b: a <= b}.get(op)
-    if opf is None:
-        raise AnalysisError("get_moveable_names: unsupported comparison operator")
-    # two recognised shapes: (flat) every atom whose rank exceeds the pivot's;  (walk) atoms reached from the pivot by
-    # following bonds to a bonded atom whose rank exceeds the current atom's
-    walk_loops = [n for n in ast.walk(gm) if isinstance(n, ast.For) and U(n.iter).endswith(".bonds")]
-    sel_shape = "flat"
-    if walk_loops:
-        cur = U(walk_loops[0].iter)[: -len(".bonds")]
-        nb = U(walk_loops[0].target)
-        if not (U(cmps[0].left) == f"{nb}.refdistance" and U(cmps[0].comparators[0]) == f"{cur}.refdistance"):
-            raise AnalysisError("get_moveable_names: bond walk whose rank test does not compare neighbour with current atom")
-        whiles = [n for n in ast.walk(gm) if isinstance(n, ast.While)]
-        if not whiles or walk_loops[0] not in list(ast.walk(whiles[0])):
-            raise AnalysisError("get_moveable_names: bond walk without a work-list loop")
-        # other conjuncts of the visit test may only restrict to this residue / unvisited atoms
-        visit = [n for n in ast.walk(walk_loops[0]) if isinstance(n, ast.If)]
-        extra = []
-        if visit and isinstance(visit[0].test, ast.BoolOp):
-            extra = [U(v) for v in visit[0].test.values if v is not cmps[0]]
-        bad_extra = [e for e in extra if not (e.endswith(".residue is self") or " not in " in e)]
-        if bad_extra:
-            raise AnalysisError(f"get_moveable_names: unrecognised visit condition(s) {bad_extra}")
-        excl = "is not" in U(gm.body[-1]) or "!=" in U(gm.body[-1])
-        sel_shape = "walk" if excl else "walk+pivot"
-    elif not any(isinstance(n, (ast.ListComp, ast.For)) and "self.atoms" in U(n) for n in ast.walk(gm)):
-        raise AnalysisError("get_moveable_names left the recognised shapes (flat rank filter / bond walk)")
+    gm_info = prog.func("residue.py", "Residue.get_moveable_names")
+    gm = gm_info.node
+    gparams = [a.arg for a in gm.args.args]
+    if len(gparams) != 2:
+        raise AnalysisError("get_moveable_names: unexpected signature")
+
+    def moved_names(adj, ranks, pivot):
+        """Evaluate the selection procedure of get_moveable_names on the topology model of one residue."""
+        resobj = {"__res__": True}
+        atoms = {}
+        for a in adj:
+            atoms[a] = {"name": a, "refdistance": ranks[a] if ranks[a] is not None else 0, "is_backbone": a in backbone, "residue": resobj,
+                        "is_hydrogen": a.startswith("H"), "bonds": []}
+        for a in adj:
+            atoms[a]["bonds"] = [atoms[b] for b in sorted(adj[a])]
+        resobj["atoms"] = [atoms[a] for a in adj]
+        resobj["map"] = atoms
+
+        def hook(interp, call):
+            nm = U(call.func)
+            if nm in ("self.get_atom",) and call.args:
+                return atoms.get(interp.ev(call.args[0]))
+            if nm == "self.has_atom" and call.args:
+                return interp.ev(call.args[0]) in atoms
+            if nm in ("len", "list", "set", "sorted"):
+                args = [interp.ev(x) for x in call.args]
+                return {"len": len, "list": list, "set": lambda v: v, "sorted": lambda v: v}[nm](*args)
+            raise AnalysisError(f"get_moveable_names: unsupported call {nm!r}: the selection procedure left the analysable subset")
+
+        it = Interp({"self": resobj, gparams[1]: pivot}, call_hook=hook, loop_hook=model.loop_hook())
+        try:
+            it.run(gm.body)
+        except Flow as fl:
+            if fl.kind == "return":
+                val = fl.value
+                if isinstance(val, Unknown) or not isinstance(val, list):
+                    raise AnalysisError("get_moveable_names: result is not a list of names on the model")
+                return set(val)
+            raise AnalysisError(f"get_moveable_names: unexpected {fl.kind}")
+        raise AnalysisError("get_moveable_names: no value returned on the model")
+
     # pivot = third atom of the dihedral (read from set_dihedral_angle)
     sd = prog.func("debump.py", "Debump.set_dihedral_angle").node
     piv = [U(s.value) for s in iter_stmts(sd.body) if isinstance(s, ast.Assign) and U(s.targets[0]) == "pivot" and isinstance(s.value, ast.Subscript)]
@@ -140,6 +149,7 @@ def check(prog, rep):
 
     # ------------------------------------------------------------------ R1
     r1 = rep.rule("R1", "a torsion change rotates exactly the far side of the rotated bond", floor=60)
+    pivot_moved = []
     extra_by_atom: dict[str, dict] = {}
     missing_by_atom: dict[str, dict] = {}
     n_inst = 0
@@ -173,18 +183,9 @@ def check(prog, rep):
                 expect = fs - {c}
                 if "RAISE" in ranks.values() or ranks[c] in (None, "RAISE"):
                     raise AnalysisError(f"rank function raises on the complete topology of {R} ({pos})")
-                if sel_shape == "flat":
-                    moved = {x for x, v in ranks.items() if v is not None and opf(v, ranks[c])}
-                else:
-                    seen = {c}
-                    todo = [c]
-                    while todo:
-                        u = todo.pop()
-                        for v in adj[u]:
-                            if v not in seen and ranks[v] is not None and ranks[u] is not None and opf(ranks[v], ranks[u]):
-                                seen.add(v)
-                                todo.append(v)
-                    moved = seen - ({c} if sel_shape == "walk" else set())
+                moved = moved_names(adj, ranks, c)
+                if c in moved:
+                    pivot_moved.append(f"{R}:{pos}:{dih}")
                 key_inst = f"{R}:{pos}:{dih}"
                 for x in moved - expect:
                     extra_by_atom.setdefault(x, {}).setdefault(R, []).append(f"{pos}:{dih}")
@@ -215,9 +216,8 @@ def check(prog, rep):
             ok_atoms += 1
             r1.ok(f"atom|{x}", "moved by a torsion change iff it lies on the far side of the rotated bond, in every instance", where)
     r1.add("no-ring-bonds", not ring_bad, f"dihedrals whose central bond lies in a ring: {ring_bad or 'none'}", "pdb2pqr/dat/AA.xml")
-    r1.info["shape"] = sel_shape
-    r1.add("pivot-not-moved", op in (ast.Gt,) and sel_shape in ("flat", "walk"), f"get_moveable_names is a {sel_shape} selection with "
-           f"comparison {op.__name__} (strict: the pivot itself and atoms of equal rank stay)", f"pdb2pqr/residue.py:{cmps[0].lineno} (get_moveable_names)")
+    r1.add("pivot-not-moved", not pivot_moved, "the pivot atom itself is never in the moved set" if not pivot_moved else
+           f"the pivot atom is rotated in {pivot_moved[:3]}", f"pdb2pqr/residue.py:{gm.lineno} (get_moveable_names)")
 
     # ------------------------------------------------------------------ R2
     r2 = rep.rule("R2", "coordinates are written only by constructors, on fresh atoms, or by the two rigid movers", floor=15)
